@@ -3,7 +3,7 @@
 
 use crate::rt;
 use common::driver::{CaseOut, Engine};
-use common::ops::Case;
+use common::ops::{parallelism_of, Case};
 use proptest::prelude::*;
 use proptest::strategy::BoxedStrategy;
 use serde_json::json;
@@ -64,7 +64,7 @@ fn cs(d: &Data, work: u8, log: &Arc<Mutex<Log>>, t: usize) {
 
 fn run_lock_case(case: &Case) -> (Log, rt::Outcome, u64) {
     let nt = case.threads.len().clamp(2, 4);
-    let parallelism = if case.cfg[1] & 2 != 0 { 1 } else { 16 };
+    let parallelism = parallelism_of(case.cfg[1]);
     let m: Arc<kanal::verif::Mutex<Data>> = Arc::new(kanal::verif::Mutex::new(Data {
         counter: UnsafeCell::new(0),
         aux: UnsafeCell::new([0; 3]),
@@ -187,6 +187,7 @@ pub fn run_case(case: &Case) -> CaseOut {
         ("try_lock_failed".into(), l.try_failed),
         ("try_lock_ok".into(), l.try_ok),
         ("parallelism_1".into(), (case.cfg[1] & 2 != 0) as u32),
+        ("parallelism_2_or_128".into(), (matches!(parallelism_of(case.cfg[1]), 2 | 128)) as u32),
         ("parks".into(), out.parks),
     ];
     if (l.contended >= 1 || l.try_failed >= 1) && !co.inconclusive {
@@ -196,7 +197,7 @@ pub fn run_case(case: &Case) -> CaseOut {
     }
     co.sample = json!({
         "case_hex": case.to_hex(),
-        "parallelism": if case.cfg[1] & 2 != 0 { 1 } else { 16 },
+        "parallelism": parallelism_of(case.cfg[1]),
         "threads": case.threads.len().clamp(2, 4),
         "history": l.hist.iter().take(40).collect::<Vec<_>>(),
         "steps": out.steps, "switches": out.switches, "end": format!("{:?}", out.end),
@@ -230,4 +231,4 @@ impl Engine for LockEng {
     }
 }
 
-pub const RULE: &str = "generated programs of 2-4 virtual threads x up to 6 lock / try_lock operations with generated work and linger inside the critical section, reported parallelism 1 or 16, under generated byte-string schedules with a fair tail; try_lock runs with every other thread suspended; non-trivial = at least one blocking lock() was invoked while another thread held the lock, or a try_lock failed; distinct = hash(case, executed thread sequence)";
+pub const RULE: &str = "generated programs of 2-4 virtual threads x up to 6 lock / try_lock operations with generated work and linger inside the critical section, reported parallelism 1, 2, 16 or 128, under generated byte-string schedules with a fair tail; try_lock runs with every other thread suspended; non-trivial = at least one blocking lock() was invoked while another thread held the lock, or a try_lock failed; distinct = hash(case, executed thread sequence)";
